@@ -5,7 +5,7 @@ From ACN Require Import Base.Num Base.ResumeBase Model.Resume Proofs.Resume.
 Import ListNotations.
 Open Scope Z_scope.
 
-(* OPEN FINDING 1: a session that leaves in the period in which it is plugged in (departure <=
+(* OPEN FINDING: a session that leaves in the period in which it is plugged in (departure <=
    plugin time).  Reference: the EV is plugged during its plugin period and unplugged in the next
    one.  Interrupted in the plugin period and resumed: the already queued UnplugEvent is popped when
    the period is re-entered, the EV is unplugged before the network is stepped. *)
@@ -31,24 +31,3 @@ Proof.
   split; [vm_compute; reflexivity|].
   vm_compute. discriminate.
 Qed.
-
-(* OPEN FINDING 2: an event of the base class Event (event_type "") is processed without setting
-   _resolve.  If it drains the queue in a period whose recomputation is due only because of
-   max_recompute and the scheduler raises there, run() returns at once when called again. *)
-Definition untyped_witness : dsim HeapQ :=
-  init_sim [plug 0 0 0 2; mk_event "Event" 4 (-1) (-1) (-1)] (Some 1).
-Definition ut_ref := Eval vm_compute in drun 8 None untyped_witness.
-Definition ut_crash := Eval vm_compute in drun 8 (Some 4%nat) untyped_witness.
-Definition ut_res := Eval vm_compute in drun 8 None (state_of ut_crash).
-
-Lemma untyped_refuted :
-  exists (k fuel : nat) (sc sref sres : dsim HeapQ),
-    drun fuel None untyped_witness = Done sref
-    /\ drun fuel (Some k) untyped_witness = Raised sc
-    /\ drun fuel None sc = Done sres
-    /\ s_iter sref = 5 /\ s_iter sres = 4.
-Proof.
-  exists 4%nat, 8%nat, (state_of ut_crash), (state_of ut_ref), (state_of ut_res).
-  repeat split; vm_compute; reflexivity.
-Qed.
-
